@@ -1,12 +1,27 @@
 package main
 
+import "strings"
+
 func init() {
 	registerProp(&propSpec{ID: "C15", Patterns: []string{"./machine"}})
 	registerProp(&propSpec{ID: "C16", Patterns: []string{"./machine"}})
 	registerProp(&propSpec{ID: "C09", Patterns: []string{"./machine/disk", "./machine/async_disk"}})
-	registerProp(&propSpec{ID: "C10", Patterns: []string{"./machine/disk"}})
+	registerProp(&propSpec{ID: "C10", Patterns: []string{"./machine/disk"}, Filter: lockFilter})
 	registerProp(&propSpec{ID: "C11", Patterns: []string{"./machine/disk"}})
 	registerProp(&propSpec{ID: "C12", Patterns: []string{"./machine/filesys"}})
 	registerProp(&propSpec{ID: "C13", Patterns: []string{"./machine/filesys"}})
-	registerProp(&propSpec{ID: "C14", Patterns: []string{"./machine/filesys"}})
+	registerProp(&propSpec{ID: "C14", Patterns: []string{"./machine/filesys"}, Filter: lockFilter})
+}
+
+// lockFilter: the lock-discipline obligations (C10, C14)
+func lockFilter(o *Obligation) bool {
+	switch {
+	case o.Kind == "lock":
+		return true
+	case o.Kind == "pre@call" && strings.Contains(o.Name, "(*sync."):
+		return true
+	case strings.Contains(o.Name, "lock released"), strings.Contains(o.Name, "lock held"), strings.Contains(o.Name, "lock free"):
+		return true
+	}
+	return false
 }
